@@ -264,7 +264,13 @@ impl DevState {
             SurfaceDeviationSet2::default()
         };
         for (k, d) in self.pushes.iter().enumerate() {
-            s.push(dev(self.init.len() + k, *d));
+            // both spellings of a push, alternating
+            if k % 2 == 0 {
+                s.push(dev(self.init.len() + k, *d));
+            } else {
+                let x = dev(self.init.len() + k, *d);
+                s.push_new(x.surface, x.deviation);
+            }
         }
         s
     }
